@@ -15,8 +15,8 @@
 (*   Park/Resume  a reader that was created is set aside while other       *)
 (*                readers and writers use the CID, and iterated later      *)
 (*                (`readers = [Reader(cid, p) for p in paths]`)            *)
-(*   ReadAgain    rows() is called once more on a reader that was not      *)
-(*                closed (the caller rewinds the source): no new object,   *)
+(*   ReadAgain    rows() is called once more on a reader, closed or not    *)
+(*                (the caller rewinds the source): no new object,          *)
 (*                counters, row numbers and checks start afresh    239-242 *)
 (*   OpenWriter   Writer.__init__                                  278-295 *)
 (*   WriterRow    Writer.write_row                                 320-330 *)
@@ -360,11 +360,13 @@ Park ==
 Resume ==
   /\ sess.kind = "none" /\ parked.kind # "none" /\ Len(hist) > parked.createdAt
   /\ sess' = [parked EXCEPT !.resumed = TRUE] /\ parked' = NoSess /\ calls' = <<>> /\ UNCHANGED <<chk, hist>>
-\* the reader of the run that just ended was not closed and is read once more from the beginning of its source
+\* the reader of the run that just ended is read once more from the beginning of its source -- whether it was forgotten,
+\* abandoned midway or closed (validio.py: rows() begins a new data set; a reader whose close() has run must run its end
+\* checks again for the data set it reads afterwards, and a second close() of ONE data set must do nothing)
 ReadAgain(end, k) ==
   /\ Rereads /\ sess.kind = "none" /\ Room /\ Len(hist) > 0
   /\ LET p == hist[Len(hist)] IN
-       /\ p.op = "read" /\ p.api = "reader" /\ p.end \in {"forget", "abandon"}
+       /\ p.op = "read" /\ p.api = "reader" /\ p.end \in {"forget", "abandon", "close"}
        /\ end = "abandon" => k \in 1..Len(p.ds.rows)
        /\ end # "abandon" => k = 0
        /\ sess' = [kind |-> "reader", api |-> "reader", ds |-> p.ds, mode |-> p.mode, limit |-> p.limit, end |-> end, k |-> k,
